@@ -26,7 +26,7 @@ ASSUMPTIONS = [
 REQUIRED = [
     "calls.Av.count", "calls.Av.of_length", "calls.Av.up_to_length", "calls.Av.first", "calls.Av.enumeration",
     "calls.Av.__contains__", "calls.Av.is_subclass", "calls.Av._ensure_level", "hook.levels_checked",
-    "op.clear", "op.iter_resumed", "op.rehandle", "faults.injected", "histories.mesh", "histories.classical", "subclass.true", "subclass.false",
+    "op.clear", "op.iter_resumed", "op.rehandle", "op.in_sweep", "faults.injected", "histories.mesh", "histories.classical", "subclass.true", "subclass.false",
 ]
 MIN_NONTRIVIAL = 100
 CTX = None
@@ -384,6 +384,15 @@ def run_ops(ctx, raw_enc, ops):
                 report(f"{t} in class = {got}, want {want}", known)
             jumped |= len(t) < last_len
             last_len = len(t)
+        elif kind == "in_sweep":
+            n = min(op[1], N)
+            for t in C.all_perms(n):
+                got = Perm(t) in av()
+                ctx.ev()
+                if got is not (t in lv[n]):
+                    report(f"{t} in class = {got}, want {t in lv[n]} (asked on a handle whose cache is shallower than the permutation)", known)
+                    break
+            ctx.count("op.in_sweep")
         elif kind == "in_other":
             for junk in (tuple(op[1]), list(op[1]), "012", 3, None):
                 ctx.ev()
@@ -622,6 +631,9 @@ def run(ctx, spec):
                 if rng.random() < 0.7:
                     Av.clear_cache()
                 chk_history(ctx, raw_enc, rand_ops(rng, None, NMAX["m"], rng.randint(5, 11)))
+            # long members asked for while only a few levels exist (mesh classes need not be closed under prefixes)
+            Av.clear_cache()
+            chk_history(ctx, raw_enc, [["count", rng.choice([0, 1, 2, 2, 3])], ["in_sweep", 4], ["in_sweep", 5], ["count", 3], ["in_sweep", 5]])
         chk_construct(ctx, [])
         chk_construct(ctx, [[]])
         chk_construct(ctx, [[], [0, 1]])
